@@ -2,6 +2,7 @@ import logging
 from threading import Event, Lock, Thread
 from playback.recordings.memory.memory_recording import MemoryRecording
 from playback.tape_cassette import TapeCassette
+from playback import _verif_trace
 
 _logger = logging.getLogger(__name__)
 
@@ -53,6 +54,7 @@ class AsyncRecordOnlyTapeCassette(TapeCassette):
             # If thread was not started
             pass
         self.wrapped_tape_cassette.close()
+        _verif_trace.emit('closed', c=id(self), joined=not self._update_recording_thread.is_alive())
         _logger.info("AsyncTapeCassette has shutdown")
 
     def get_recording(self, recording_id):
@@ -85,6 +87,7 @@ class AsyncRecordOnlyTapeCassette(TapeCassette):
         """
         with self._lock:
             self._recording_operation_buffer.append(func)
+            _verif_trace.emit('enqueue', c=id(self), op=id(func), n=len(self._recording_operation_buffer))
 
     def _save_recording(self, recording):
         """
@@ -123,8 +126,10 @@ class AsyncRecordOnlyTapeCassette(TapeCassette):
         for recording_operation in current_flushed_operations:
             try:
                 recording_operation()
+                _verif_trace.emit('applied', c=id(self), op=id(recording_operation), ok=True)
             except Exception as ex:  # pylint: disable=broad-except
                 _logger.exception(u"Error running recording operation - {}".format(ex))
+                _verif_trace.emit('applied', c=id(self), op=id(recording_operation), ok=False)
 
 
 class AsyncRecording(MemoryRecording):
